@@ -64,6 +64,36 @@ type lookup struct {
 	done    int32 // QueryDone events seen
 	exit    chan struct{}
 	forms   *rand.Rand // which byte form an IPv4 address is reported in
+
+	// scheduler gate (hook VerifGate): holds the run loop between releasing op.mu and blocking in select,
+	// so that a broadcast can be placed exactly where a wake-up could be lost
+	gateArmed   int32
+	atGate      chan struct{}
+	gateRelease chan struct{}
+	gates       int
+}
+
+func (lk *lookup) gate(op *traversal.Operation, point string) {
+	if atomic.CompareAndSwapInt32(&lk.gateArmed, 1, 0) {
+		lk.atGate <- struct{}{}
+		<-lk.gateRelease
+	}
+}
+
+// holdLoop arms the gate and waits for the run loop to park in it.
+func (lk *lookup) holdLoop(d time.Duration) bool {
+	select {
+	case <-lk.atGate:
+		lk.gates++
+		return true
+	case <-time.After(d):
+		if atomic.CompareAndSwapInt32(&lk.gateArmed, 1, 0) {
+			return false // the loop did not come round; nothing is held
+		}
+		<-lk.atGate // it arrived just now
+		lk.gates++
+		return true
+	}
 }
 
 func (lk *lookup) absID(id krpc.ID) int { return lk.emb.MustAbs(id) }
@@ -231,7 +261,8 @@ func genLookup(rng *rand.Rand, seg int, tr *sim.Trace, big bool) *lookup {
 		emb: sim.NewEmbedding(rng, w), seg: seg, tr: tr,
 		net: map[string]nodeBehaviour{}, bad: map[string]bool{}, badp: map[cand]bool{},
 		counts: map[string]int{}, enter: make(chan *held, 64), exit: make(chan struct{}),
-		forms: rand.New(rand.NewSource(rng.Int63())),
+		forms:  rand.New(rand.NewSource(rng.Int63())),
+		atGate: make(chan struct{}, 1), gateRelease: make(chan struct{}),
 	}
 	lk.k = 1 + rng.Intn(3)
 	if rng.Intn(8) == 0 {
@@ -331,7 +362,8 @@ func genLookup(rng *rand.Rand, seg int, tr *sim.Trace, big bool) *lookup {
 
 func (lk *lookup) run(rng *rand.Rand, seed int64, idx int, concurrent bool) (err error) {
 	traversal.VerifSink = lk.sink
-	defer func() { traversal.VerifSink = nil }()
+	traversal.VerifGate = lk.gate
+	defer func() { traversal.VerifSink = nil; traversal.VerifGate = nil }()
 	badl := []string{}
 	for a := range lk.bad {
 		badl = append(badl, a)
@@ -344,6 +376,10 @@ func (lk *lookup) run(rng *rand.Rand, seed int64, idx int, concurrent bool) (err
 	sort.Slice(badpl, func(i, j int) bool { return fmt.Sprint(badpl[i]) < fmt.Sprint(badpl[j]) })
 	lk.tr.Buf(traversal.VerifNextSeq(), sim.M{"e": "Start", "seg": lk.seg, "k": lk.k, "alpha": lk.alpha,
 		"target": lk.target, "bad": badl, "badp": badpl, "addrs": lk.addrs, "seed": seed, "lookup": idx})
+	firstGate := rng.Intn(2) == 0
+	if firstGate {
+		atomic.StoreInt32(&lk.gateArmed, 1)
+	}
 	op := traversal.Start(traversal.OperationInput{
 		Target: lk.emb.Conc(lk.target), K: lk.k, Alpha: lk.alpha, DoQuery: lk.doQuery,
 		NodeFilter: func(a types.AddrMaybeId) bool { return lk.nodeOK(lk.candOf(a)) },
@@ -377,7 +413,7 @@ func (lk *lookup) run(rng *rand.Rand, seed int64, idx int, concurrent bool) (err
 		}
 	}
 	quiesce := func() error {
-		deadline := time.Now().Add(30 * time.Second)
+		deadline := time.Now().Add(15 * time.Second)
 		for {
 			drain()
 			s := op.VerifSnapshot()
@@ -403,7 +439,17 @@ func (lk *lookup) run(rng *rand.Rand, seed int64, idx int, concurrent bool) (err
 			consDone <- struct{}{}
 		}()
 	}
-	op.AddNodes(randCands(1 + rng.Intn(3)))
+	if firstGate {
+		// the loop's first pass (empty frontier) is held between unlock and select; the seeds arrive there
+		if !lk.holdLoop(30 * time.Second) {
+			writeHang(hang{seed, idx, "run loop never reached its first select", op.VerifSnapshot()})
+			return errHang
+		}
+		op.AddNodes(randCands(1 + rng.Intn(3)))
+		lk.gateRelease <- struct{}{}
+	} else {
+		op.AddNodes(randCands(1 + rng.Intn(3)))
+	}
 	lateLeft := rng.Intn(3)
 	wantStop := rng.Intn(3) == 0
 	stopped := false
@@ -447,6 +493,9 @@ func (lk *lookup) run(rng *rand.Rand, seed int64, idx int, concurrent bool) (err
 		if !consWaiting && !stopped && rng.Intn(2) == 0 {
 			acts = append(acts, 3)
 		}
+		if len(heldQ) > 0 && !stopped && rng.Intn(4) == 0 {
+			acts = append(acts, 4)
+		}
 		if len(acts) == 0 {
 			if concurrent {
 				if err := quiesce(); err != nil {
@@ -472,6 +521,33 @@ func (lk *lookup) run(rng *rand.Rand, seed int64, idx int, concurrent bool) (err
 			doStop()
 		case 3:
 			startCons()
+		case 4:
+			// lost-wake-up attack: a completion wakes the loop, which is then held between unlock and select
+			// while a second broadcast (another completion, or a late AddNodes) happens
+			atomic.StoreInt32(&lk.gateArmed, 1)
+			i := rng.Intn(len(heldQ))
+			h := heldQ[i]
+			heldQ = append(heldQ[:i], heldQ[i+1:]...)
+			released++
+			close(h.release)
+			if !lk.holdLoop(2 * time.Second) {
+				break
+			}
+			drain()
+			if len(heldQ) > 0 && rng.Intn(2) == 0 {
+				j := rng.Intn(len(heldQ))
+				h2 := heldQ[j]
+				heldQ = append(heldQ[:j], heldQ[j+1:]...)
+				released++
+				close(h2.release)
+			} else {
+				op.AddNodes(randCands(1 + rng.Intn(2)))
+			}
+			deadline := time.Now().Add(30 * time.Second)
+			for int(atomic.LoadInt32(&lk.done)) != released && time.Now().Before(deadline) {
+				time.Sleep(20 * time.Microsecond)
+			}
+			lk.gateRelease <- struct{}{}
 		}
 	}
 	// the lookup has nothing left to do: it must report stalled (or be stopped)
@@ -540,7 +616,7 @@ func (lk *lookup) run(rng *rand.Rand, seed int64, idx int, concurrent bool) (err
 			counts = append(counts, []any{a, n + 100})
 		}
 	}
-	lk.tr.Buf(traversal.VerifNextSeq(), sim.M{"e": "Summary", "seg": lk.seg, "maxconc": lk.maxconc, "counts": counts,
+	lk.tr.Buf(traversal.VerifNextSeq(), sim.M{"e": "Summary", "seg": lk.seg, "gates": lk.gates, "maxconc": lk.maxconc, "counts": counts,
 		"closest": cl, "uncancelled": uncancelled, "stopped": stoppedOK})
 	return nil
 }
@@ -576,6 +652,9 @@ func main() {
 		if err := lk.run(rng, *seed, i, i%2 == 1); err != nil {
 			hangs++
 			tr.Drop() // the unfinished segment is reported through the .hang file
+			if hangs >= 2 {
+				break // two lookups that never made the progress they owe: the rest would only cost time
+			}
 			continue
 		}
 		tr.Flush()
